@@ -8,6 +8,8 @@ import (
 	"bytes"
 	"net"
 	"time"
+
+	"github.com/btcsuite/btcwallet/walletdb"
 )
 
 // ---- clock: time.Now() in store.go is redirected to vpNow() ----
@@ -322,4 +324,97 @@ func VerifH_C13_reban() {
 	}
 	got, err = st.Status(n)
 	vpAssert(err == nil && !got.Banned, "not-banned-after-unban")
+}
+
+// ---- operations of two callers interleaved at transaction granularity ----
+
+// vpHookDB runs a hook right after the k-th transaction of the wrapped
+// database has ended: bbolt serialises transactions, so between two
+// transactions of one caller is exactly where another caller's operation
+// can take place.
+type vpHookDB struct {
+	*vpDB
+	ended  int
+	fireAt int
+	hook   func()
+}
+
+func (d *vpHookDB) after() {
+	d.ended++
+	if d.hook != nil && d.ended == d.fireAt {
+		h := d.hook
+		d.hook = nil
+		h()
+	}
+}
+func (d *vpHookDB) View(f func(tx walletdb.ReadTx) error, reset func()) error {
+	err := d.vpDB.View(f, reset)
+	d.after()
+	return err
+}
+func (d *vpHookDB) Update(f func(tx walletdb.ReadWriteTx) error, reset func()) error {
+	err := d.vpDB.Update(f, reset)
+	d.after()
+	return err
+}
+
+// VerifH_C13_statusRace: a status query of a network whose earlier ban has
+// lapsed (and was not queried since) runs while another caller bans that
+// network again; the second caller's transaction lands after any one of
+// the query's transactions.  Whatever the order, the new ban was recorded
+// after the old one lapsed, so every later query reports it - with its
+// reason and expiry - also after reopening.
+func VerifH_C13_statusRace() {
+	vpClock = &vpClockT{}
+	vpFault = &vpFaultCtl{}
+	db := &vpHookDB{vpDB: vpNewDB()}
+	st, err := newBanStore(db)
+	if err != nil {
+		vpAssert(false, "store-created")
+		return
+	}
+	n := vpIPNet("A", vpRange("famA", 0, 2))
+	r1, r2 := Reason(vpU8("reason1")), Reason(vpU8("reason2"))
+	if err := st.BanIPNet(n, r1, time.Second); err != nil {
+		vpAssert(false, "ban1-ok")
+		return
+	}
+	t1 := vpClock.last
+	var exp2 int64
+	banned2 := false
+	db.ended = 0
+	db.fireAt = vpRange("otherCallerAfterTx", 1, 2)
+	db.hook = func() {
+		if err := st.BanIPNet(n, r2, 24*time.Hour); err != nil {
+			vpAssert(false, "ban2-ok")
+			return
+		}
+		banned2 = true
+		exp2 = vpClock.last.Add(24 * time.Hour).Unix()
+	}
+	got, err := st.Status(n)
+	vpAssert(err == nil, "status-ok")
+	if !banned2 {
+		// the query needed fewer transactions than the hook waited for: the
+		// other caller comes right after it
+		db.hook()
+		db.hook = nil
+	}
+	_ = got
+	if vpClock.last.Unix() < t1.Add(time.Second).Unix() {
+		return // the first ban had not lapsed yet (the store group covers that)
+	}
+	vpReach("ban-recorded-while-a-lapsed-record-was-being-queried")
+	for k := 0; k < 2; k++ {
+		s2, err := st.Status(n)
+		vpAssert(err == nil, "status-ok")
+		if vpClock.last.Unix() < exp2 {
+			vpAssert(s2.Banned && s2.Reason == r2 && s2.Expiration.Unix() == exp2, "ban-recorded-during-a-status-query-is-in-force")
+		}
+		st, err = newBanStore(db)
+		if err != nil {
+			vpAssert(false, "reopen-ok")
+			return
+		}
+	}
 }
